@@ -1,6 +1,20 @@
 import difflib
+import re
 
 import libcst as cst
+
+_LINE = re.compile(r"[^\n]*\n|[^\n]+")
+
+
+def split_lines(text: str) -> list[str]:
+    """
+    Split `text` into lines, keeping the terminators, at "\\n" only.
+
+    This is the line model of unified-diff consumers. `str.splitlines` also
+    splits at form feed, vertical tab, NEL, U+2028/2029 and lone carriage
+    returns, which yields hunks whose line counts do not match the file.
+    """
+    return _LINE.findall(text)
 
 
 def create_diff(original_lines: list[str], new_lines: list[str]) -> str:
@@ -13,8 +27,8 @@ def create_diff_from_tree(original_tree: cst.Module, new_tree: cst.Module) -> st
     Create a diff between the original and output trees.
     """
     return create_diff(
-        original_tree.code.splitlines(keepends=True),
-        new_tree.code.splitlines(keepends=True),
+        split_lines(original_tree.code),
+        split_lines(new_tree.code),
     )
 
 
